@@ -248,6 +248,23 @@ def run(unit):
                     argv = (['-o', 'json'] if want_json else []) + [path]
                     for kind, detail in check_case(argv, 'spec', content, want_json, r, 'file'):
                         r.violation(kind, {'argv': argv[:-1] + ['<file>'], 'content': content}, detail, size=len(content))
+            # long files: the whole file is read, whatever its length - sizes just beyond 4 KiB, 8 KiB, 64 KiB, 128 KiB
+            # and 1 MiB (buffer and chunk sizes of readers), valid throughout and with the only error in the last property
+            sizes = {2: 4096, 3: 8192, 4: 65536, 5: 131072, 6: 1 << 20}
+            if unit[2] in sizes and (tier != 'quick' or unit[2] != 6):
+                parts, total, i = [], 0, 0
+                while total <= sizes[unit[2]] + 200:
+                    parts.append(f'# id: p{i}\nglobally: no /t{i % 7} {{ x > {i} }}' if i % 2 else f'# id: p{i}\n# title: "property {i}"\nafter s as S until e: (a or b {{ x = @S.x }}) causes c within {i % 9 + 1} s')
+                    total += len(parts[-1]) + 1
+                    i += 1
+                for content in ('\n'.join(parts), '\n'.join(parts + ['globally: no']), '\n'.join(parts + ['# id: p0\nglobally: some z'])):
+                    path = os.path.join(d, f'long{unit[2]}.hpl')
+                    with open(path, 'w', encoding='utf-8') as fh:
+                        fh.write(content)
+                    for want_json in (True, False):
+                        argv = (['-o', 'json'] if want_json else []) + [path]
+                        for kind, detail in check_case(argv, 'spec', content, want_json, r, 'long-file'):
+                            r.violation(kind + ' [long file]', {'argv': argv[:-1] + ['<file>'], 'long_file_shard': unit[2]}, detail[:600], size=len(content))
             # missing file, directory
             for bogus in () if unit[2] else (os.path.join(d, 'missing.hpl'), d):
                 for want_json in (True, False):
@@ -390,6 +407,8 @@ def replay(w):
     if 'argv_bytes' in w or 'file_bytes' in w or 'order' in w or 'argv' not in w:
         return [{'sig': v['sig'], 'detail': v['detail']} for v in [v for part in ('classes', 'unicode', 'multi') for v in run(('subprocess', 'quick', part)).violations]]
     argv = w['argv']
+    if 'long_file_shard' in w:
+        return [{'sig': v['sig'], 'detail': v['detail']} for v in run(('files', 'thorough', w['long_file_shard'], 24)).violations]
     if '<file>' in argv or '<missing>' in argv:
         d = tempfile.mkdtemp(prefix='hplmc_c19_')
         try:
@@ -406,7 +425,7 @@ def replay(w):
 def describe(tier):
     b = bounds(tier)
     return {
-        'rule': f"-p: every property skeleton (widths <= {b['max_width']}) x 3 decorations, 11 fixed valid texts covering every node kind incl. INF/NAN/PI/E and metadata, 8 invalid texts (syntax, sanity, type, unknown function, duplicate metadata, empty) x with/without -o json x short/long options; the first valid texts again WITHOUT -p (a file of that name does not exist: exit 1, no JSON); files: all 1- and 2-property files and a fifth of the 3-property files over the 11 valid texts, every invalid text at positions 0..2, empty / blank / dangling-annotation files, a missing file and a directory x with/without -o json; real processes: one text per outcome class x 4 configurations; 4 texts outside ASCII (well-formed Unicode, a raw non-UTF-8 byte in the argument vector) x 4 I/O configurations of the process (default, ascii stdout, C locale, UTF-8 mode) x with/without -o json, and a UTF-8 and a Latin-1 file; and one process that makes 2-3 calls mixing -p and file mode in both orders (expectations hard-coded, not taken from the library). A transition = one hpl.cli.main call (or process).",
+        'rule': f"Plus files just beyond 4 KiB, 8 KiB, 64 KiB, 128 KiB (thorough: 1 MiB) of annotated properties: valid throughout, with a syntax error in the last property, with the first id repeated by the last property. -p: every property skeleton (widths <= {b['max_width']}) x 3 decorations, 11 fixed valid texts covering every node kind incl. INF/NAN/PI/E and metadata, 8 invalid texts (syntax, sanity, type, unknown function, duplicate metadata, empty) x with/without -o json x short/long options; the first valid texts again WITHOUT -p (a file of that name does not exist: exit 1, no JSON); files: all 1- and 2-property files and a fifth of the 3-property files over the 11 valid texts, every invalid text at positions 0..2, empty / blank / dangling-annotation files, a missing file and a directory x with/without -o json; real processes: one text per outcome class x 4 configurations; 4 texts outside ASCII (well-formed Unicode, a raw non-UTF-8 byte in the argument vector) x 4 I/O configurations of the process (default, ascii stdout, C locale, UTF-8 mode) x with/without -o json, and a UTF-8 and a Latin-1 file; and one process that makes 2-3 calls mixing -p and file mode in both orders (expectations hard-coded, not taken from the library). A transition = one hpl.cli.main call (or process).",
         'bounds': b,
         'exhaustive': True,
         'assumptions': ['the library parser called directly decides "parses"; strict JSON = json.loads rejecting NaN/Infinity constants'],
